@@ -346,6 +346,10 @@ class HierDictDocument(DictDocument):
                 if subinst is None:
                     subinst = []
 
+                if not isinstance(v, (list, tuple)):
+                    raise ValidationError([k, v],
+                                            "%r must be a list of values")
+
                 for a in v:
                     subinst.append(
                             self._from_dict_value(ctx, k, member, a, validator))
